@@ -3,7 +3,7 @@
    the round trip theorem (checked by computation), and the model really round-trips it. *)
 From Coq Require Import List ZArith NArith Bool String.
 From MirV Require Import Base.W64 Mir.Opcode C11.Tables C11.Ast C11.BinIO C11.BinIOProofs C11.BinGrammarProofs
-  C11.BinRoundtrip C11.BinWfDec.
+  C11.BinRoundtrip C11.BinWfDec C10.TextOut C10.TextProofs.
 Import ListNotations.
 Local Open Scope Z_scope.
 
@@ -50,3 +50,27 @@ Proof. vm_compute. reflexivity. Qed.
 (* the read really normalises something: the scale of the index-less memory operand *)
 Example ex_ctx_norm_differs : map norm_module ex_ctx <> ex_ctx.
 Proof. vm_compute. intros H. inversion H. Qed.
+
+(* ---------------------------------------------------------------- statements collected for Properties_C11 *)
+
+Lemma bin_string_table_complete_full ts t e :
+  In t ts -> entry_of t = Some e ->
+  In e (collect ts) /\ nth_error (collect ts) (index_of e (collect ts)) = Some e.
+Proof. intros H1 H2. split; [| apply index_of_nth]; exact (bin_string_table_complete_lemma ts t e H1 H2). Qed.
+
+Lemma bin_module_roundtrip_lemma ms : wf_ctx ms ->
+  read_ctx (write_ctx ms) = Ok (map norm_module ms)
+  /\ write_ctx (map norm_module ms) = write_ctx ms
+  /\ (forall fF fD fLD, p_ctx fF fD fLD (map norm_module ms) = p_ctx fF fD fLD ms)
+  /\ map norm_module (map norm_module ms) = map norm_module ms.
+Proof.
+  intros H. split; [exact (read_write_ctx ms H)|]. split; [exact (write_ctx_norm ms)|].
+  split; [intros; apply p_ctx_norm|]. rewrite map_map. apply map_ext. exact norm_module_idem.
+Qed.
+
+Lemma bin_write_function_lemma ms1 ms2 :
+  map norm_module ms1 = map norm_module ms2 -> write_ctx ms1 = write_ctx ms2.
+Proof. intros H. rewrite <- (write_ctx_norm ms1), <- (write_ctx_norm ms2), H. reflexivity. Qed.
+
+Lemma bin_roundtrip_nonvacuous_lemma : wf_ctx ex_ctx /\ map norm_module ex_ctx <> ex_ctx.
+Proof. split; [apply wf_ctx_b_spec; exact ex_ctx_wf | exact ex_ctx_norm_differs]. Qed.
